@@ -112,6 +112,11 @@ func NewCommit(o *Object) (*Commit, error) {
 	}
 	commit.Message = strings.Join(message, "\n")
 
+	if commit.Tree == nil {
+		// a commit always names its snapshot
+		return nil, ErrInvalidCommitObject
+	}
+
 	return commit, nil
 }
 
